@@ -88,6 +88,7 @@ func checkC04(c *Ctx) {
 	c.Rule("R3 remainder.complete: the remainder literal built in PartialContent copies every other field of the receiver (source items, ranges, expansion state, marks)")
 	c.Rule("R4 hidden.honoured: each of Content, PartialContent and JustAttributes reads the hidden attribute set (directly or through a callee it hands the receiver to)")
 	c.Rule("R5 content.shared: Content is implemented as PartialContent plus a leftover report, or both go through the same helpers (their sets of module callees agree apart from the underlying body's Content/PartialContent)")
+	c.Rule("R12 remainder.threaded: a Body implementation without hidden sets that wraps another body (its PartialContent calls PartialContent on a Body-typed field of the receiver and returns a value of its own type) puts the inner call's remainder (result 1) into that field of the body it returns — never the wrapped body itself, which still holds what this call consumed")
 	c.Rule("R11 leftover.source: the loops of Content that decide by a hidden-set lookup which items are left over range over the same receiver item sources (a field, or the result of a receiver method) as PartialContent extracts from")
 	c.Rule("R10 hidden.filter: in every method of such a type, inside a loop that looks an item's name up in a hidden set, every insertion into the result of that kind (a store into an hcl.Attributes map; an append to hcl.Blocks) is dominated by the not-hidden edge of such a lookup")
 	nFilter := 0
@@ -108,6 +109,7 @@ func checkC04(c *Ctx) {
 		c.Fn(FuncName(ja))
 		c04ContentShared(c, bi, tname, co, pc)
 		if len(bi.hidden) == 0 {
+			c04RemainderThreaded(c, bi, tname, pc)
 			continue
 		}
 		c04LeftoverSource(c, bi, tname, co, pc)
@@ -118,6 +120,7 @@ func checkC04(c *Ctx) {
 		c04Honoured(c, bi, tname, map[string]*ssa.Function{"Content": co, "PartialContent": pc, "JustAttributes": ja})
 	}
 	c.Floor("hidden.filter insertions", nFilter, 7, "filtered insertions in hclsyntax.Body, json.body and dynblock.expandBody")
+	appendSharedRule(c, "append.shared", "hcl", "hclsyntax", "json", "ext/dynblock", "hcldec")
 	c04MergedRequired(c)
 	c04CopyIntoEmpty(c)
 	c04DeadFieldStore(c)
@@ -1162,5 +1165,71 @@ func c04LeftoverSource(c *Ctx, bi bodyImpl, tname string, co, pc *ssa.Function) 
 		sort.Strings(all)
 		c.Check(ok, "leftover.source", tname+".Content:over["+s+"]", left[s], "PartialContent extracts from the same source",
 			"Content decides what is left over by ranging over "+s+" of the receiver, which PartialContent does not extract from (it uses "+strings.Join(all, ", ")+"): items PartialContent can see are never reported as unexpected, or the reverse")
+	}
+}
+
+
+// R12 remainder.threaded
+func c04RemainderThreaded(c *Ctx, bi bodyImpl, tname string, pc *ssa.Function) {
+	recv := pc.Params[0]
+	isRecv := func(v ssa.Value) bool {
+		if v == ssa.Value(recv) || isSpillOf(v, recv) {
+			return true
+		}
+		// the cell a value receiver is spilled into
+		if al, ok := v.(*ssa.Alloc); ok {
+			n, from := 0, false
+			for _, r := range *al.Referrers() {
+				if st, ok := r.(*ssa.Store); ok && st.Addr == ssa.Value(al) {
+					n++
+					from = st.Val == ssa.Value(recv)
+				}
+			}
+			return n == 1 && from
+		}
+		return false
+	}
+	// inner call: PartialContent invoked on a Body-typed field of the receiver
+	var inner *ssa.Call
+	var field *types.Var
+	for _, b := range pc.Blocks {
+		for _, ins := range b.Instrs {
+			call, ok := ins.(*ssa.Call)
+			if !ok || !call.Call.IsInvoke() || call.Call.Method.Name() != "PartialContent" {
+				continue
+			}
+			switch x := call.Call.Value.(type) {
+			case *ssa.Field:
+				if isRecv(x.X) {
+					inner, field = call, fieldVarOf(x.X.Type(), x.Field)
+				}
+			case *ssa.UnOp:
+				if fa, ok := x.X.(*ssa.FieldAddr); ok && x.Op == token.MUL && isRecv(fa.X) {
+					inner, field = call, fieldVarOf(fa.X.Type(), fa.Field)
+				}
+			}
+		}
+	}
+	if inner == nil || field == nil {
+		return
+	}
+	n := 0
+	for _, al := range complitsOf(pc, bi.named) {
+		for _, st := range fieldStores(al, field) {
+			n++
+			c.Sites++
+			v := st.Val
+			if mi, ok := v.(*ssa.MakeInterface); ok {
+				v = mi.X
+			}
+			ex, ok := v.(*ssa.Extract)
+			okv := ok && ex.Tuple == ssa.Value(inner) && ex.Index == 1
+			c.Check(okv, "remainder.threaded", tname+".PartialContent:remainder."+field.Name(), st.Pos(), "the wrapped body's remainder",
+				"the body returned for further processing wraps "+pathName(st.Val)+" instead of the remainder of the inner PartialContent call: it still contains the items this call has just consumed, so an exhaustive second step reports them as unexpected (or returns them twice)")
+		}
+	}
+	if n == 0 {
+		c.Sites++
+		c.Undecided("remainder.threaded", tname+".PartialContent:remainder."+field.Name(), pc.Pos(), "the wrapper's remainder literal was not found")
 	}
 }
